@@ -3,7 +3,7 @@ EXTENDS OptLattice, Json, CSV, IOUtils
 DumpFile == IF "VERIF_DUMP" \in DOMAIN IOEnv THEN IOEnv.VERIF_DUMP ELSE ""
 DumpConstraint ==
   IF DumpFile # "" /\ rows > 0
-    THEN CSVWrite("%1$s", <<ToJson([n |-> rows, row |-> [f \in 1..NF |-> row[f]],
+    THEN CSVWrite("%1$s", <<ToJson([variant |-> variant, n |-> rows, row |-> [f \in 1..NF |-> row[f]],
                                      names |-> [f \in 1..NF |-> Factors[f].n],
                                      left |-> Cardinality(unc), total |-> Cardinality(Tuples)])>>, DumpFile)
     ELSE TRUE
